@@ -253,6 +253,8 @@ def _chunks(stream):
 
 
 def model_request(c):
+    if c["op"] == "opt":
+        return None
     table = {n: i for i, n in enumerate(c["names"])}
     extra = {}
 
@@ -339,8 +341,15 @@ def _field():
     return _CUR_FIELD[0] if _CUR_FIELD else "chromosome"
 
 
+def _stranded():
+    return bool(_CUR_CASE and _CUR_CASE.get("stranded"))
+
+
 def _table_class():
     from bionumpy.datatypes import Interval
+    if _stranded():
+        from bionumpy.datatypes import StrandedInterval
+        return StrandedInterval
     if _CUR_FIELD:
         return _mate_class(_CUR_KEY)
     return _str_keyed() if _CUR_KEY == "str" else Interval
@@ -354,13 +363,16 @@ def _mk_stream(stream, kind="interval"):
     for ch in _chunks(stream):                     # every chunk is built as a fresh table
         if not ch:                                 # an empty chunk, as produced by filtering a chunk
             one = BedGraph(["chr1"], [0], [1], [1]) if kind == "bedgraph" else \
-                (cls(["chr1"], [0], [1], ["chr1"]) if _CUR_FIELD else cls(["chr1"], [0], [1]))
+                (cls(["chr1"], [0], [1], ["+"]) if _stranded() else
+                 cls(["chr1"], [0], [1], ["chr1"]) if _CUR_FIELD else cls(["chr1"], [0], [1]))
             out.append(one[np.array([False])])
             continue
         names = [_nm(_CUR_CASE, n) for n, _ in ch] if _CUR_CASE else [n for n, _ in ch]
         s = np.array([i for _, i in ch], dtype=int)
         if kind == "bedgraph":
             out.append(BedGraph(names, s, s + 1, s + 1))
+        elif _stranded():
+            out.append(cls(names, s, s + 1, ["+" if i % 2 else "-" for i in s.tolist()]))
         elif _CUR_FIELD:
             # the `chromosome` column is a decoy that is itself compatible with the genome; the names under test sit
             # in `mate_chromosome`
@@ -522,12 +534,47 @@ class _NoData(Exception):
     pass
 
 
+_OPT_CODE = (
+    "import sys, json, warnings\n"
+    "warnings.filterwarnings('ignore')\n"
+    "sys.path.insert(0, sys.argv[1]); sys.path.insert(0, sys.argv[2])\n"
+    "from harness.props import c12\n"
+    "cases = json.load(sys.stdin)\n"
+    "flag = bool(sys.flags.optimize)\n"
+    "print('\\n@@C12OPT@@' + json.dumps({'optimize': flag, 'obs': [c12.impl(c) for c in cases]}))\n")
+
+
+def _opt(c):
+    """PROCESS-WIDE interpreter settings the outcome must not depend on: the inner cases are run by a child interpreter
+    started with -O / -OO / PYTHONOPTIMIZE=1 (assert statements are not executed there), same package, same harness code"""
+    import json
+    import subprocess
+    import sys
+    env = dict(os.environ)
+    env.pop("PYTHONOPTIMIZE", None)
+    args = [sys.executable]
+    if c["mode"] == "env":
+        env["PYTHONOPTIMIZE"] = "1"
+    elif c["mode"] != "plain":
+        args.append(c["mode"])
+    verif = os.path.dirname(os.path.dirname(os.path.dirname(os.path.abspath(__file__))))
+    r = subprocess.run(args + ["-c", _OPT_CODE, verif, str(core.REPO)], input=json.dumps(c["inner"]), capture_output=True, text=True,
+                       env=env, timeout=600)
+    tail = r.stdout.rsplit("@@C12OPT@@", 1)
+    if r.returncode != 0 or len(tail) != 2:
+        raise RuntimeError("child interpreter failed: " + r.stderr[-400:])
+    d = json.loads(tail[1])
+    if d["optimize"] != (c["mode"] != "plain"):
+        raise RuntimeError("child interpreter did not run in the requested mode")
+    return {"obs": d["obs"]}
+
+
 def _call(c):
     import bionumpy as bnp
     from bionumpy.datatypes import Interval, BedGraph
     global _CUR_KEY, _CUR_FIELD
     op = c["op"]
-    st = c["streams"]
+    st = c.get("streams")
     global _CUR_CASE
     _CUR_CASE = c
     _CUR_KEY = c.get("key", "id")
@@ -536,6 +583,8 @@ def _call(c):
         return _mem_pair(c)
     if op == "mem_pre":
         return _mem_pre(c)
+    if op == "opt":
+        return _opt(c)
     if op == "iter":
         kw = {"group_field": _field()} if _CUR_FIELD else {}
         return {"out": [_ids(t) for t in _ctx(c).iter_chromosomes(_mk_stream(st[0]), _table_class(), **kw)]}
@@ -550,10 +599,10 @@ def _call(c):
             fn = os.path.join(_tmpdir(), f"{core.case_hash(c)}-{os.getpid()}.bed")
             with open(fn, "w") as fh:
                 for n, i in _entries(st[0]):
-                    fh.write(f"{_nm(c, n)}\t{i}\t{i + 1}\n")
-            gi = _genome(c).read_intervals(fn, stream=True)
+                    fh.write(f"{_nm(c, n)}\t{i}\t{i + 1}" + (f"\t.\t0\t{'+' if i % 2 else '-'}\n" if _stranded() else "\n"))
+            gi = _genome(c).read_intervals(fn, stream=True, **({"stranded": True} if _stranded() else {}))
         else:
-            gi = _genome(c).get_intervals(_mk_stream(st[0]))
+            gi = _genome(c).get_intervals(_mk_stream(st[0]), **({"stranded": True} if _stranded() else {}))
         r = bnp.compute(gi.get_mask().get_data())
         chrom, pos = [], []
         for n, s, e in zip(_names_of(r.chromosome), r.start.tolist(), r.stop.tolist()):
@@ -561,7 +610,7 @@ def _call(c):
                 chrom.append(n); pos.append(p)
         return {"out": _per_contig(c, chrom, pos)}
     if op == "genome_compute":
-        r = _genome(c).get_intervals(_mk_stream(st[0])).compute()
+        r = _genome(c).get_intervals(_mk_stream(st[0]), **({"stranded": True} if _stranded() else {})).compute()
         return {"flat": [int(x) for x in np.asarray(r.start).ravel()]}
     if op == "track":
         if c.get("source") == "file":
@@ -672,6 +721,9 @@ def _similarity(op, sizes, a, b):
 
 def oracle(c):
     op = c["op"]
+    if op == "opt":
+        exps = [oracle(i) for i in c["inner"]]
+        return {"obs": [None if e is SKIP else e for e in exps]}
     st = c["streams"]
     names_in_data = [n for s in st for n, _ in s["groups"]]
     for s in st:
@@ -737,6 +789,10 @@ def oracle(c):
 
 
 def agree(c, got, exp):
+    if c["op"] == "opt":
+        if not (isinstance(got, dict) and "obs" in got and len(got["obs"]) == len(exp["obs"])):
+            return False
+        return all(e is None or agree(i, g, e) for i, g, e in zip(c["inner"], got["obs"], exp["obs"]))
     if c["op"] == "mem_pre":
         if not (isinstance(got, dict) and "res" in got):
             return False                               # the preparation by the other genome object failed
@@ -785,6 +841,12 @@ def agree_model(c, got, m):
 
 
 def finding_key(c, got, exp):
+    if c["op"] == "opt":
+        if isinstance(got, dict) and "obs" in got:
+            for i, g, e in zip(c["inner"], got["obs"], exp["obs"]):
+                if e is not None and not agree(i, g, e):
+                    return f"opt:{c['mode']}:" + finding_key(i, g, e)
+        return f"opt:{c['mode']}:child-failed"
     suffix = (":after-derived-genome" if c.get("derive") else "") + \
              (":empty-chunk" if any(s.get("empty_at") for s in c["streams"]) else "")
     if c["op"] == "mem_pair":
@@ -811,6 +873,8 @@ def _finding_key(c, got, exp):
 
 
 def nontrivial(c):
+    if c["op"] == "opt":
+        return any(nontrivial(i) for i in c["inner"])
     order = list(c["names"])
     for s in c["streams"]:
         ns = [n for n, _ in s["groups"]]
@@ -864,6 +928,7 @@ def cases(tier, rng):
     yield from _cases_main(tier, rng)
     yield from _cases_round4(tier, rng)
     yield from _cases_round7(tier, rng)
+    yield from _cases_round8(tier, rng)
 
 
 _FILL = "ABCDEFGHIJKLMNOPQRSTUVWXYZabcdefghijklmnopqrstuvwxyz0123456789|.=-"
@@ -927,6 +992,41 @@ def _cases_round7(tier, rng):
                 for how in ("genome", "column"):
                     yield {"names": names, "filt": filt, "op": "mem_pre", "other": {"names": onames, "how": how},
                            "streams": [{"groups": groups, "cuts": []}]}
+
+
+def _cases_round8(tier, rng):
+    big = tier in ("thorough", "widen")
+    # 8a. the documented keyword stranded=True of the streamed entry points (Genome.get_intervals(stream, stranded=True),
+    #     read_intervals(file, stranded=True, stream=True)): tables with a strand column, every chunking
+    names = ["chr1", IGN, "chr2", "chr3"]
+    for seq in _group_sequences(["chr1", "chr2", "chr3", IGN, UNK], 3):
+        groups = _with_ids(seq, rng)
+        n_e = sum(len(i) for _, i in groups)
+        for cuts in (_cut_sets(n_e, tier, rng) if big else [rng.choice(_cut_sets(n_e, "quick", rng)), list(range(1, n_e))]):
+            s1 = {"groups": groups, "cuts": cuts}
+            for op in ("genome_mask", "genome_compute"):
+                yield {"names": names, "filt": rng.random() < 0.7, "op": op, "streams": [s1], "stranded": True}
+        yield {"names": names, "filt": True, "op": "genome_mask", "streams": [{"groups": groups, "cuts": []}], "stranded": True, "source": "file"}
+    # 8b. the same small cases in a child interpreter that does not execute assert statements (python -O, -OO,
+    #     PYTHONOPTIMIZE=1): an error that the property demands must not be an `assert`
+    contigs = ["chr1", "chr2", "chr3"]
+    inner = []
+    for seq in _group_sequences(contigs + [UNK], 3):
+        groups = _with_ids(seq, rng)
+        n_e = sum(len(i) for _, i in groups)
+        s1 = {"groups": groups, "cuts": rng.choice(_cut_sets(n_e, "quick", rng))}
+        for op in ("iter", "genome_mask", "genome_compute", "track", "ms", "left_join"):
+            inner.append({"names": contigs, "filt": True, "op": op, "streams": [s1]})
+        other = {"groups": _with_ids([x for x in contigs if rng.random() < 0.6], rng), "cuts": []}
+        for op in DOUBLE:
+            inner.append({"names": contigs, "filt": True, "op": op, "streams": [rng.choice([[s1, other], [other, s1]])][0]})
+        inner.append({"names": contigs, "op": "mem_pair", "genomes": [{"names": contigs}], "streams": [{"groups": groups, "cuts": []}]})
+    rng.shuffle(inner)
+    per = 90
+    batches = [inner[k:k + per] for k in range(0, len(inner), per)]
+    modes = ["-O", "env", "-OO", "plain"]
+    for k, b in enumerate(batches if big else batches[:3]):
+        yield {"op": "opt", "mode": modes[k % len(modes)] if big else modes[k % 2], "inner": b}
 
 
 def _cases_round4(tier, rng):
